@@ -12,6 +12,7 @@ from numpy.polynomial.legendre import leggauss
 
 from vp import gen, probe, refmodels as rm
 from vp import defaults
+from vp import reuse
 
 RULE = ('Noll indices 1..231 (quick) / 1..1326 (thorough) enumerated completely for the index map; all mode pairs up to '
         'j=45 (quick) / 91 (thorough) plus random pairs up to the bound for the Gram matrix on an exact quadrature; random '
@@ -77,6 +78,7 @@ def cmp_mode(ctx, key, what, got, ref, par, desc, tol=1e-10, scale=None):
 
 def workload(ctx, lentil):
     defaults.run(ctx, lentil, 'C11', 'index=noll')
+    reuse.run(ctx, lentil, 'C11', 'index=noll')
     rng = ctx.rng
     Z = zmod()
     jmax = 231 if ctx.tier == 'quick' else 1326
